@@ -22,11 +22,11 @@ structure Header where
   hash : Bytes
   deriving DecidableEq, Repr
 
-/-- `AccountHeader.Bytes()` = Address ‖ Uint64ToBytes(Height) ‖ Hash (field order = `Gen.accountHeaderBytesFields`) -/
+/-- `AccountHeader.Bytes()` = Address ‖ Uint64ToBytes(Height) ‖ Hash (field order = `Gen.gnAccountHeaderBytesFields`) -/
 def Header.bytes (h : Header) : Bytes := h.addr ++ (beBytes 8 h.height ++ h.hash)
 
 /-- what the Go types guarantee: 20-byte address, 32-byte hash, uint64 height -/
-def Header.WF (h : Header) : Prop := h.addr.length = 20 ∧ h.hash.length = Gen.HashSize ∧ h.height < two64
+def Header.WF (h : Header) : Prop := h.addr.length = 20 ∧ h.hash.length = Gen.GnHashSize ∧ h.height < two64
 
 /-- `AccountBlockHeaderComparer`: `bytes.Compare(a.Bytes(), b.Bytes()) <= 0` -/
 def hdrLe (a b : Header) : Bool := bytesLe a.bytes b.bytes
